@@ -3,7 +3,7 @@
 # current machinery no longer detects, and keep the shrunk replay cases as regression corpus entries
 # (corpus/<ID>/mut-<name>-<n>.json).  usage: tools/seedregress.sh [names...]
 cd /verif
-NAMES=${@:-$(ls seeded | grep -E '^C[0-9]+-[A-K]$')}
+NAMES=${@:-$(ls seeded | grep -E '^C[0-9]+-[A-P]$')}
 for N in $NAMES; do
   DET=$(/venv/bin/python -c "import json;print(' '.join(json.load(open('/verif/seeded/$N/meta.json')).get('confirmed',{}).get('detected_by',[])))" 2>/dev/null)
   [ -z "$DET" ] && { echo "$N: (recorded as undetected) skip"; continue; }
